@@ -76,6 +76,20 @@ def _is_git(op, *words):
 LEDGER_CLASSES = ("ai_line_reported_human", "human_line_reported_ai", "wrong_session")
 
 
+def _feature_range(trace):
+    """(start, end) op indexes of the commits made on the branch that is rewritten afterwards: from its
+    creation (checkout/switch -b|-c) to the next checkout away from it; None when there is none"""
+    ops = _ops(trace)
+    start = _index_of(trace, lambda o: o.get("op") == "git" and (o.get("argv") or [])[:1] in (["checkout"], ["switch"])
+                      and any(x in ("-b", "-c") for x in o["argv"]))
+    if start is None:
+        return None
+    end = _index_of(trace, lambda o: o.get("op") == "git" and (o.get("argv") or [])[:1] in (["checkout"], ["switch"])
+                    and not any(x in ("-b", "-c") for x in o["argv"]), start + 1)
+    return (start, end if end is not None else len(ops))
+
+
+
 @predicate("stash_pop_shift")
 def stash_pop_shift(trace, viol):
     """stash push ; a commit that changes the stashed file ; stash pop/apply ; commit -> wrong lines"""
@@ -89,7 +103,11 @@ def stash_pop_shift(trace, viol):
         return False
     between_commit = _index_of(trace, lambda o: _is_git(o, "commit"), push, pop)
     st = viol.get("step")
-    return between_commit is not None and isinstance(st, int) and st > pop
+    # the commit made while the work was stashed changed the SAME file (that is what shifts the stashed lines)
+    path = (viol.get("detail") or {}).get("path")
+    same_file_changed = _index_of(trace, lambda o: o.get("op") == "edit" and (path is None or path in (o.get("files") or {})),
+                                  push, pop) is not None
+    return between_commit is not None and same_file_changed and isinstance(st, int) and st > pop
 
 
 @predicate("rebase_conflict_multi_commit")
@@ -101,7 +119,10 @@ def rebase_conflict_multi_commit(trace, viol):
         return False
     res = _index_of(trace, lambda o: o.get("op") == "resolve", reb)
     st = viol.get("step")
-    return res is not None and isinstance(st, int) and st > res and "rebase" in _step_argv(trace, viol)
+    # the rewritten range has two or more commits (a single-commit rebase with a conflict is handled correctly)
+    fr = _feature_range(trace)
+    n_commits = sum(1 for o in _ops(trace)[fr[0]:fr[1]] if _is_git(o, "commit")) if fr else 2
+    return res is not None and isinstance(st, int) and st > res and "rebase" in _step_argv(trace, viol) and n_commits >= 2
 
 
 @predicate("rebase_edit_amend")
@@ -155,8 +176,10 @@ def rebase_human_intraline_edit(trace, viol):
     reb = _index_of(trace, lambda o: _is_git(o, "rebase") and "--continue" not in o["argv"] and "--abort" not in o["argv"])
     if reb is None:
         return False
+    # ... made on the branch that is rewritten (a human intra-line edit upstream is not this finding)
+    fr = _feature_range(trace) or (0, reb)
     mod = _index_of(trace, lambda o: o.get("op") == "edit" and o.get("who") == "human" and
-                    (o.get("desc") or {}).get("kind") == "modify", 0, reb)
+                    (o.get("desc") or {}).get("kind") in ("modify", "modify_part"), fr[0], min(fr[1], reb))
     st = viol.get("step")
     return mod is not None and isinstance(st, int) and st >= reb
 
@@ -311,6 +334,7 @@ def hooks_stash_apply(trace, viol):
 def replay_intermediate_notes(trace, viol):
     """the two executions differ on a commit that is not the tip of the rewritten range"""
     return viol.get("class") == "notes_differ_on_lines_the_commit_adds" and \
+        not (viol.get("detail") or {}).get("is_tip", False) and \
         (trace.get("variant") or {}).get("env", {}).get("GIT_AI_VERIF_FLAGS") == "decline_fast_path"
 
 
@@ -337,7 +361,11 @@ def stats_breakdown_counts_pending_sessions(trace, viol):
         return False
     partial = any((o.get("op") == "stage") or (_is_git(o, "add", "--")) or (_is_git(o, "commit", "--")) for o in ops[:st + 1])
     sessions = {o.get("who") for o in ops[:st + 1] if o.get("op") == "edit" and o.get("who") != "human"}
-    return partial and len(sessions) >= 2
+    # ... or the same session's own overridden lines stay pending: the commit total of mixed lines is capped by
+    # the room the commit has, the per-tool numbers are not
+    overridden = any(o.get("op") == "edit" and o.get("who") == "human" and
+                     (o.get("desc") or {}).get("kind") in ("modify", "modify_part", "replace") for o in ops[:st + 1])
+    return partial and (len(sessions) >= 2 or overridden)
 
 
 @predicate("ws_change_next_to_deletion")
@@ -421,17 +449,16 @@ def pull_rebase_conflict(trace, viol):
 
 @predicate("pick_conflict_multi_commit_notes")
 def pick_conflict_multi_commit_notes(trace, viol):
-    """cherry-pick of a range that stops on a conflict and is continued: wrapper mode writes the notes
-    of all picked commits from the state at the end of the range, hooks mode commit by commit"""
+    """cherry-pick of a range (two or more commits) through the content-replay path: wrapper mode writes
+    the notes of all picked commits from the state at the end of the range, hooks mode commit by commit"""
     if viol.get("monitor") != "pair.notes":
         return False
     cp = _index_of(trace, lambda o: _is_git(o, "cherry-pick") and any(".." in x for x in o["argv"]))
     if cp is None:
         return False
-    res = _index_of(trace, lambda o: o.get("op") == "resolve", cp)
-    cont = _index_of(trace, lambda o: _is_git(o, "cherry-pick", "--continue"), cp)
     st = viol.get("step")
-    return res is not None and cont is not None and isinstance(st, int) and st >= cont
+    # only the notes of commits below the tip of the picked range differ
+    return isinstance(st, int) and st >= cp and not (viol.get("detail") or {}).get("tip_differs", False)
 
 
 @predicate("hooks_pathspec_reset")
@@ -477,3 +504,45 @@ def ci_squash_taken_for_rebase(trace, viol):
     co = _index_of(trace, lambda o: _is_git(o, "checkout", "-b", "feat"))
     n_commits = sum(1 for o in ops[co or 0:sm] if _is_git(o, "commit"))
     return n_commits >= 2
+
+
+@predicate("hooks_rebase_abort_masks_hooks")
+def hooks_rebase_abort_masks_hooks(trace, viol):
+    """git rebase --abort in git-hooks mode: the managed hooks were renamed (masked) when the rebase started and
+    only post-rewrite / post-checkout put them back; an abort fires neither, so the following commits run no
+    git-ai hook at all and get no note until a branch switch or amend heals the hooks"""
+    if viol.get("monitor") not in ("pair.notes", "pair.blame"):
+        return False
+    if (trace.get("variant") or {}).get("world", {}).get("mode") != "hooks":
+        return False
+    ab = _index_of(trace, lambda o: _is_git(o, "rebase", "--abort"))
+    st = viol.get("step")
+    if ab is None or not isinstance(st, int) or st <= ab:
+        return False
+    return "commit" in _step_argv(trace, viol)
+
+
+@predicate("amend_drops_pending_untracked_file")
+def amend_drops_pending_untracked_file(trace, viol):
+    """an AI-created file that is still untracked is pending (INITIAL) after a partial commit; git commit --amend
+    of that commit (even message-only) drops its pending attribution; committed later, its lines are human"""
+    if viol.get("class") != "ai_line_reported_human":
+        return False
+    path = (viol.get("detail") or {}).get("path")
+    st = viol.get("step")
+    am = _index_of(trace, lambda o: _is_git(o, "commit", "--amend"))
+    if not path or am is None or not isinstance(st, int) or st <= am:
+        return False
+    return _untracked_at(trace, path, am) and _index_of(trace, lambda o: _is_git(o, "commit"), 0, am) is not None
+
+
+@predicate("replay_notes_carry_unadded_lines")
+def replay_notes_carry_unadded_lines(trace, viol):
+    """rebase / cherry-pick / pull --rebase through the content-replay path in wrapper mode: the rewritten commit's
+    note also lists AI lines of the file that this commit did not add (state carried from the original head); hooks
+    mode lists only the added ones.  Both agree on every line the commit adds, so blame is the same"""
+    if viol.get("monitor") != "pair.notes":
+        return False
+    if not (viol.get("detail") or {}).get("differ_only_on_lines_the_commit_did_not_add", False):
+        return False
+    return _index_of(trace, lambda o: o.get("op") == "git" and (o.get("argv") or [])[:1] in (["rebase"], ["cherry-pick"], ["pull"])) is not None
